@@ -326,4 +326,4 @@ def thread_compare():
     return None
 
 if __name__ == "__main__":
-    main()
+    common.run_main(main)
